@@ -4,8 +4,16 @@
 // by reflection from inside a DecodeFn that is run through the public decode.Decode entry point,
 // and writes one case line per call for the Lean driver:
 //
-//	rd <L> <hex> <pos> <be|le> <Method> <args…> TAB <outcome> <pos'> [c<start>:<len>|c-]
+//	rd [<shape>] <L> <hex> <pos> <be|le> <Method> <args…> TAB <outcome> <pos'> [c<start>:<len>|c-] nx:<k>:<v>
 //
+// shape  how the L input bits are delivered to decode.Decode (default: one plain bit reader)
+//          m:<b1>,<b2>,…      bitio.MultiReader of the parts [0,b1) [b1,b2) … [bk,L), each its own re-packed buffer
+//                             (what fq builds for `[a,b]|tobits`); equal offsets give empty parts
+//          s:<off>:<b1>,…     bitio.SectionReader [off, off+L) of a MultiReader over off junk bits + the input + junk
+//          k:<k>              a reader that delivers at most k bits per ReadBitsAt call
+//        the expected result does not depend on the shape: the driver ignores it
+// nx     after the call a further TryUintBits(k), k = min(16, bits left) is made at the position the
+//        call left: its value v (nx:0:0 at the end of the input, nx:e if it failed)
 // L      length of the input in bits (the hex string is padded with zero bits to a byte)
 // pos    bit position the decoder is moved to before the call (d.SeekAbs)
 // be|le  d.Endian before the call ("current endian" readers)
@@ -242,12 +250,150 @@ func callReader(d *decode.D, pos int64, endian string, method string, args []str
 			obs += " cmany"
 		}
 	}
+	// a following read from where the call left the decoder
+	func() {
+		defer func() {
+			if r := recover(); r != nil {
+				obs += " nx:e"
+			}
+		}()
+		k := d.BitsLeft()
+		if k > 16 {
+			k = 16
+		}
+		if k <= 0 {
+			obs += " nx:0:0"
+			return
+		}
+		v, err := d.TryUintBits(int(k))
+		if err != nil {
+			obs += " nx:e"
+			return
+		}
+		obs += fmt.Sprintf(" nx:%d:%d", k, v)
+	}()
 	return obs
 }
 
-// runCase decodes `buf` (L bits) with a one-off format whose DecodeFn performs the call.
-func runCase(o *hlib.Out, L int64, buf []byte, pos int64, endian string, method string, args []string) string {
-	op := fmt.Sprintf("rd %d %s %d %s %s", L, hlib.Hex(buf), pos, endian, method)
+// shortReader delivers at most k bits per ReadBitsAt call (a legal short read: no error).
+type shortReader struct {
+	r   bitio.ReaderAtSeeker
+	k   int64
+	pos int64
+}
+
+func (s *shortReader) ReadBitsAt(p []byte, nBits int64, bitOff int64) (int64, error) {
+	if nBits > s.k {
+		nBits = s.k
+	}
+	return s.r.ReadBitsAt(p, nBits, bitOff)
+}
+
+func (s *shortReader) ReadBits(p []byte, nBits int64) (int64, error) {
+	n, err := s.ReadBitsAt(p, nBits, s.pos)
+	s.pos += n
+	return n, err
+}
+
+func (s *shortReader) SeekBits(bitOff int64, whence int) (int64, error) {
+	if whence == io.SeekCurrent {
+		bitOff += s.pos
+		whence = io.SeekStart
+	}
+	n, err := s.r.SeekBits(bitOff, whence)
+	if err != nil {
+		return 0, err
+	}
+	s.pos = n
+	return n, nil
+}
+
+func multiOf(bits string, bounds []int) (bitio.ReaderAtSeeker, error) {
+	var parts []bitio.ReadAtSeeker
+	prev := 0
+	for _, b := range append(append([]int{}, bounds...), len(bits)) {
+		if b < prev || b > len(bits) {
+			return nil, fmt.Errorf("bad part boundary %d", b)
+		}
+		pb, pn := bitio.BytesFromBitString(bits[prev:b])
+		parts = append(parts, bitio.NewBitReader(pb, pn))
+		prev = b
+	}
+	return bitio.NewMultiReader(parts...)
+}
+
+func parseInts(s string) ([]int, error) {
+	if s == "" {
+		return nil, nil
+	}
+	var r []int
+	for _, w := range strings.Split(s, ",") {
+		v, err := strconv.Atoi(w)
+		if err != nil {
+			return nil, err
+		}
+		r = append(r, v)
+	}
+	return r, nil
+}
+
+// buildReader delivers the L input bits in the given shape.
+func buildReader(shape string, L int64, buf []byte) (bitio.ReaderAtSeeker, error) {
+	if shape == "" {
+		return bitio.NewBitReader(buf, L), nil
+	}
+	bits := bitio.BitStringFromBytes(buf, L)
+	f := strings.Split(shape, ":")
+	switch {
+	case f[0] == "m" && len(f) == 2:
+		bs, err := parseInts(f[1])
+		if err != nil {
+			return nil, err
+		}
+		return multiOf(bits, bs)
+	case f[0] == "s" && len(f) == 3:
+		off, err := strconv.Atoi(f[1])
+		if err != nil || off < 0 {
+			return nil, fmt.Errorf("bad section offset")
+		}
+		bs, err := parseInts(f[2])
+		if err != nil {
+			return nil, err
+		}
+		// deterministic junk around the input
+		junk := func(n int, seed byte) string {
+			var sb strings.Builder
+			for i := 0; i < n; i++ {
+				sb.WriteByte('0' + ((seed>>uint(i%7))^byte(i))&1)
+			}
+			return sb.String()
+		}
+		for i := range bs {
+			bs[i] += off
+		}
+		all := junk(off, 0x5a) + bits + junk(11, 0xc3)
+		mr, err := multiOf(all, append([]int{off / 2}, bs...))
+		if err != nil {
+			return nil, err
+		}
+		return bitio.NewSectionReader(mr, int64(off), L), nil
+	case f[0] == "k" && len(f) == 2:
+		k, err := strconv.Atoi(f[1])
+		if err != nil || k < 1 {
+			return nil, fmt.Errorf("bad k")
+		}
+		return &shortReader{r: bitio.NewBitReader(buf, L), k: int64(k)}, nil
+	}
+	return nil, fmt.Errorf("bad shape %q", shape)
+}
+
+// runCase decodes `buf` (L bits, delivered in `shape`) with a one-off format whose DecodeFn performs the call.
+func runCase(o *hlib.Out, shape string, L int64, buf []byte, pos int64, endian string, method string, args []string) string {
+	op := "rd "
+	if shape != "" {
+		op += shape + " "
+	}
+	op += fmt.Sprintf("%d %s %d %s %s", L, hlib.Hex(buf), pos, endian, method)
 	if len(args) > 0 {
 		op += " " + strings.Join(args, " ")
 	}
@@ -262,7 +408,11 @@ func runCase(o *hlib.Out, L int64, buf []byte, pos int64, endian string, method 
 	}
 	g := &decode.Group{Name: "verif_c02", Formats: []*decode.Format{f}}
 	res, panicked := hlib.Catch(func() string {
-		_, _, err := decode.Decode(context.Background(), bitio.NewBitReader(buf, L), g, decode.Options{IsRoot: true})
+		br, err := buildReader(shape, L, buf)
+		if err != nil {
+			return "badshape"
+		}
+		_, _, err = decode.Decode(context.Background(), br, g, decode.Options{IsRoot: true})
 		if err != nil {
 			return "decode-error"
 		}
@@ -302,12 +452,20 @@ func main() {
 			if len(ws) < 6 || ws[0] != "rd" {
 				continue
 			}
+			shape := ""
+			if _, err := strconv.ParseInt(ws[1], 10, 64); err != nil {
+				shape = ws[1]
+				ws = append(ws[:1], ws[2:]...)
+				if len(ws) < 6 {
+					continue
+				}
+			}
 			L, err1 := strconv.ParseInt(ws[1], 10, 64)
 			pos, err2 := strconv.ParseInt(ws[3], 10, 64)
 			if err1 != nil || err2 != nil {
 				continue
 			}
-			runCase(o, L, hlib.UnHex(ws[2]), pos, ws[4], ws[5], ws[6:])
+			runCase(o, shape, L, hlib.UnHex(ws[2]), pos, ws[4], ws[5], ws[6:])
 		}
 		return
 	}
